@@ -190,7 +190,7 @@ pub fn property(_ctx: &Ctx) -> Property {
         id: "C08",
         rule: "cases: paths of 2-8 ops mixing move/line/quad/cubic/arc/close in any order (curve first, directly after close, cusps, coincident control points, control points up to +-1500 units), both winding rules, identity / translation / rotation x scale / non-uniform scale / shear / mirror transforms (device geometry within +-4000 px), used as fill path or as clip path, white on transparent, 12..32 px surfaces. Oracle: f64 path walker with the statement's cursor rules, curves evaluated densely (<=0.08 px steps), winding number and distance to the outline per pixel centre; a pixel whose centre is more than 1 px + half a pixel diagonal from the outline must be exactly 0xffffffff when inside by the rule and exactly 0 when outside. Non-trivial: path with >=1 curve and >=1 judged-inside and >=1 judged-outside pixel; distinct by hash of the case.",
         assumptions: vec!["pixels within 1.71 px of the outline are not judged (counted as undecided)", "arcs are judged as the quads PathBuilder::arc emitted (C20 owns arc-vs-circle)"],
-        parts: vec![part("fill", 16_000, 800_000, strategy, check)],
+        parts: vec![part("fill", 80_000, 1_500_000, strategy, check)],
         min_class_fraction: vec![("fill", "has-curve", 0.8), ("fill", "as-clip-path", 0.15), ("fill", "draw-after-close", 0.05), ("fill", "non-monotonic-quad", 0.15), ("fill", "far-control-point", 0.05), ("fill", "curve-starts-above-row0", 0.1)],
         panic_is_violation: false,
     }
